@@ -18,10 +18,18 @@
 (*   ControlsExisting  a v1 handle that opened an existing group acts on it   *)
 (*   RandomFresh       Random never returns a group that already existed      *)
 (*   OpenReturns       OpenExisting on v1 returns the handle it built         *)
-(* Concurrent creators are modelled step by step in Cgroup_MC (AtomicMkdir).  *)
+(*   OwnsOnlyCreated   per hierarchy, only a directory the handle created is   *)
+(*                     recorded as created (FALSE: when the first hierarchy    *)
+(*                     was fresh, every hierarchy is -- also pre-existing ones)*)
+(* Concurrent creators are modelled step by step in Cgroup_Race (AtomicMkdir). *)
+(* Existence is tracked per hierarchy: a group may pre-exist in a subset of    *)
+(* the v1 hierarchies (SpecMk: an administrator's mkdir).  Then Existing() is  *)
+(* not pinned by the property (either value), but ownership is: per hierarchy  *)
+(* the handle owns a directory iff it created it, and Destroy never removes a  *)
+(* directory the handle does not own.                                          *)
 EXTENDS Integers, Sequences, FiniteSets
 
-CONSTANTS ControlsExisting, RandomFresh, OpenReturns
+CONSTANTS ControlsExisting, RandomFresh, OpenReturns, OwnsOnlyCreated
 
 Outside == <<"-">>
 Child(p, n) == Append(p, n)
@@ -42,40 +50,57 @@ MkDirs(S, p) == [S EXCEPT !.dirs = [c \in S.ctls |-> @[c] \cup {p}]]
 Move(S, ks, p, cs) == [S EXCEPT !.mem = [c \in S.ctls |-> IF c \in cs THEN [k \in DOMAIN @[c] |-> IF k \in ks THEN p ELSE @[c][k]] ELSE @[c]]]
 
 \* ---------------------------------------------------------------- property layer
-\* create-or-open of a child: the handle owns exactly the directories it created
-SpecNewAt(S, p) ==
+\* an administrator creates the directory p in the hierarchies cs, outside the library
+SpecMk(S, p, cs) == Res([S EXCEPT !.dirs = [c \in S.ctls |-> IF c \in cs THEN @[c] \cup {p} ELSE @[c]]], FALSE, 0)
+Mixed(S, p) == ~Uniform(S, p)
+\* create-or-open of a child: the handle owns exactly the directories it created.  Existing() is
+\* TRUE when nothing was created, FALSE when everything was; in a mixed state the caller-visible
+\* flag exf (what the implementation answered) is taken as it is
+SpecNewAtEx(S, p, exf) ==
   LET own == { c \in S.ctls : p \notin S.dirs[c] }
-      S1  == AddHandle(MkDirs(S, p), Handle(p, own = {}, own, S.ctls))
+      ex  == IF own = {} THEN TRUE ELSE IF own = S.ctls THEN FALSE ELSE exf
+      S1  == AddHandle(MkDirs(S, p), Handle(p, ex, own, S.ctls))
   IN Res(S1, FALSE, Len(S1.hs))
-SpecNew(S, h, name) == SpecNewAt(S, Child(S.hs[h].path, name))
+SpecNewAt(S, p) == SpecNewAtEx(S, p, FALSE)
+SpecNewEx(S, h, name, exf) == SpecNewAtEx(S, Child(S.hs[h].path, name), exf)
+SpecNew(S, h, name) == SpecNewEx(S, h, name, FALSE)
 \* Random: a group that did not exist before, under the first forced name that is free
 FirstFree(S, h, names) == CHOOSE i \in DOMAIN names :
                              /\ Fresh(S, Child(S.hs[h].path, names[i]))
                              /\ \A j \in 1..(i - 1) : ~Fresh(S, Child(S.hs[h].path, names[j]))
 SpecRandom(S, h, names) == SpecNew(S, h, names[FirstFree(S, h, names)])
 \* Nest: create-or-open, then every process of the parent group moves into the child
-SpecNest(S, h, name) ==
-  LET r == SpecNew(S, h, name)
+SpecNestEx(S, h, name, exf) ==
+  LET r == SpecNewEx(S, h, name, exf)
       p == Child(S.hs[h].path, name)
       ks == UNION { Procs(S, c, S.hs[h].path) : c \in S.ctls }
   IN [r EXCEPT !.S = Move(r.S, ks, p, S.ctls)]
+SpecNest(S, h, name) == SpecNestEx(S, h, name, FALSE)
 SpecOpen(S, p) ==
   IF Exists(S, p) THEN LET S1 == AddHandle(S, Handle(p, TRUE, {}, S.ctls)) IN Res(S1, FALSE, Len(S1.hs))
   ELSE Res(S, TRUE, 0)
 SpecAdd(S, h, k) == Res(Move(S, {k}, S.hs[h].path, S.ctls), FALSE, 0)
 \* Destroy removes the directories this handle created (when the kernel allows: empty, no
-\* children), nothing else; it fails iff one of them could not be removed
+\* children), nothing else; it fails iff one of them could not be removed.
+\* A handle that reports Existing() although it created some directories (mixed state) may also
+\* leave everything in place (lazy): removing nothing is never a breach of "only if it created it".
 SpecDestroy(S, h) ==
   LET p == S.hs[h].path
       R == { c \in S.hs[h].own : Removable(S, c, p) }
       S1 == [S EXCEPT !.dirs = [c \in S.ctls |-> IF c \in R THEN @[c] \ {p} ELSE @[c]],
-                      !.hs[h].live = (R # S.hs[h].own)]
+                      !.hs[h].live = FALSE]     \* one Destroy per handle (a retry after a partial failure is a client matter)
   IN Res(S1, R # S.hs[h].own, 0)
+LazyAllowed(S, h) == S.hs[h].ex /\ S.hs[h].own # {}
+SpecDestroyLazy(S, h) == Res([S EXCEPT !.hs[h].live = FALSE], FALSE, 0)
 
 \* ---------------------------------------------------------------- implementation layer
+\* the library visits the v1 controllers in a fixed order; the first one decides Existing()
+Rank(c) == CASE c = "cpu" -> 1 [] c = "cpuset" -> 2 [] c = "cpuacct" -> 3 [] c = "memory" -> 4 [] c = "pids" -> 5 [] OTHER -> 0
+First(S) == CHOOSE c \in S.ctls : \A d \in S.ctls : Rank(c) <= Rank(d)
 ImplNewAt(S, p) ==
   LET own == { c \in S.ctls : p \notin S.dirs[c] }
-      S1  == AddHandle(MkDirs(S, p), Handle(p, own = {}, own, IF ControlsExisting THEN S.ctls ELSE own))
+      rec == IF OwnsOnlyCreated \/ First(S) \notin own THEN own ELSE S.ctls
+      S1  == AddHandle(MkDirs(S, p), Handle(p, First(S) \notin own, rec, IF ControlsExisting THEN S.ctls ELSE own))
   IN Res(S1, FALSE, Len(S1.hs))
 ImplNew(S, h, name) == ImplNewAt(S, Child(S.hs[h].path, name))
 ImplRandom(S, h, names) == IF RandomFresh THEN ImplNew(S, h, names[FirstFree(S, h, names)])
@@ -93,7 +118,13 @@ ImplOpen(S, p) ==
   IF ~Exists(S, p) THEN Res(S, TRUE, 0)
   ELSE IF OpenReturns THEN SpecOpen(S, p) ELSE Res(S, FALSE, 0)
 ImplAdd(S, h, k) == Res(Move(S, {k}, S.hs[h].path, S.hs[h].acts), FALSE, 0)
-ImplDestroy(S, h) == SpecDestroy(S, h)
+ImplDestroy(S, h) == IF S.hs[h].ex THEN SpecDestroyLazy(S, h) ELSE SpecDestroy(S, h)
+
+\* ---------------------------------------------------------------- admissible results
+\* r is what the implementation did; exf the Existing() it answered
+AdmNewAt(S, p, r) == r = SpecNewAtEx(S, p, IF r.n # 0 THEN r.S.hs[r.n].ex ELSE FALSE)
+AdmNest(S, h, name, r) == r = SpecNestEx(S, h, name, IF r.n # 0 THEN r.S.hs[r.n].ex ELSE FALSE)
+AdmDestroy(S, h, r) == r = SpecDestroy(S, h) \/ (LazyAllowed(S, h) /\ r = SpecDestroyLazy(S, h))
 
 \* ---------------------------------------------------------------- invariants of a state
 \* at most one live handle owns a directory
